@@ -621,12 +621,19 @@ def distributed_peer_lookup(eng: Engine, ck: Check, rule: str):
                 good = any(conn_test(e, pol, v.id) for e, pol, _ in eng.guards_at(m, r))
             else:
                 # `peer = <loop variable>` assigned in the hit branch of the search loop (the desugared next(..) form)
+                # every value the name ever receives is None (no hit) or the loop variable of the search, assigned where the connection test holds
+                hits, others = 0, 0
                 for n in walk_local(m.node):
-                    if isinstance(n, ast.Assign) and unparse(n.targets[0]) == v.id and isinstance(n.value, ast.Name):
+                    if isinstance(n, ast.Assign) and unparse(n.targets[0]) == v.id:
+                        if is_none_const(n.value):
+                            continue
                         lp2 = next((a for a in ancestors(n) if isinstance(a, (ast.For, ast.AsyncFor))), None)
-                        if lp2 is not None and isinstance(lp2.target, ast.Name) and lp2.target.id == n.value.id and chain_str(lp2.iter) == 'self.distributed_peers' and \
-                                lp2 in list(ancestors(r)) and any(conn_test(e, pol, n.value.id) for e, pol, _ in eng.guards_at(m, n)):
-                            good = True
+                        if isinstance(n.value, ast.Name) and lp2 is not None and isinstance(lp2.target, ast.Name) and lp2.target.id == n.value.id and \
+                                chain_str(lp2.iter) == 'self.distributed_peers' and any(conn_test(e, pol, n.value.id) for e, pol, _ in eng.guards_at(m, n)):
+                            hits += 1
+                        else:
+                            others += 1
+                good = hits >= 1 and others == 0
         vx = expand_aliases(m, v)
         if not good and isinstance(vx, ast.Call) and call_name(vx) == 'next' and vx.args and isinstance(vx.args[0], ast.GeneratorExp) and len(vx.args[0].generators) == 1:
             v = vx
